@@ -256,13 +256,13 @@ package gzip
 //@ ghost registered int
 //@ func gzipParse
 //@   requires c != nil
-//@   modifies ghost:parsedNow, Dispenser.cursor, Dispenser.nesting
+//@   modifies ghost:parsedNow, Dispenser.cursor, Dispenser.nesting, MV:map[string]struct{}, MD:map[string]struct{}
 //@   ensures parsedNow == old(parsedNow) + 1
 //@ extern (*github.com/tmpim/casket/caskethttp/httpserver.SiteConfig).AddMiddleware
 //@   modifies ghost:registered
 //@   ensures registered == old(registered) + 1
 //@ func setup
 //@   requires c != nil && parsedNow == 0 && registered == 0
-//@   modifies ghost:parsedNow, ghost:registered, Dispenser.cursor, Dispenser.nesting
+//@   modifies ghost:parsedNow, ghost:registered, Dispenser.cursor, Dispenser.nesting, MV:map[string]struct{}, MD:map[string]struct{}
 //@   at call (*github.com/tmpim/casket/caskethttp/httpserver.SiteConfig).AddMiddleware before [registered_after_this_runs_own_parse] parsedNow == 1
 //@   ensures [one_handler_on_success_none_on_error] parsedNow == 1 && (result == nil ==> registered == 1) && (result != nil ==> registered == 0)
